@@ -120,6 +120,7 @@ def run(prog, rep, tier, cfg):
         X.guard('K6b', 'change_owner:beneficiary-follows-only-if-owner', cl, wb, m_rel('eq', ['F:MinerInfo.beneficiary'], ['F:MinerInfo.owner'], True), 'info.beneficiary == info.owner')
     # ---- error discipline: no Result produced in these crates is silently discarded
     X.no_dropped_results('K14', 'results-not-discarded', ['fil_actor_miner'], 'no Result of a call is discarded')
+    X.tolerated_failures('K15', 'tolerated-failures', ['fil_actor_miner'], 'tolerated failures are the reviewed ones')
 
 
 
